@@ -1195,13 +1195,18 @@ def replay_sweep(rec):
 TIME_UNIT = "host operations executed (the system has no clock; steps are the only time)"
 EVIDENCE_RULE = (
     "A case is one simulated host history: 5-14 seeded operations (plus a final run of "
-    "every live query) on a pool of live query objects of the styles select(Model), legacy "
-    "session.query(Model), Core select(table), Django QuerySet and Manager over a random "
-    "small database: host where / join (relationship, outer, target+onclause, target, "
-    "select_related) / order / annotate, apply the shorthand (result re-enters the pool), "
-    "apply a failing filter, run any query (older ones after later applies included), use "
-    "sqlalchemy.func, collect garbage; the engine's compiled-statement cache has a random "
-    "size in {0,1,2,500}. Oracles per step: Python reference database, execution with the "
+    "every live query) on a pool of live query objects of the styles select(Model), "
+    "select(aliased(Model)), legacy session.query(Model) and query(aliased(Model)), Core "
+    "select(table) / select(some columns) / select from a join whose FROM order differs "
+    "from the column order, Django QuerySet, Model.objects, a custom manager and a related "
+    "manager, over a random small database: host where (also across a to-many relation) / "
+    "join (relationship, outer, target+onclause, target, host alias, joinedload, Core join, "
+    "select_related) / order / limit+offset / distinct / annotate / defer, apply the "
+    "shorthand (result re-enters the pool; the same or the same-shape filter is re-applied "
+    "on the same and on other bases), apply a failing filter, run any query (older ones "
+    "after later applies included), compile and execute the host's own sqlalchemy.func "
+    "statements on the shared engine, collect garbage; the engine's compiled-statement "
+    "cache has a random size in {0,1,2,500}. Oracles per step: Python reference database, execution with the "
     "cache disabled, compiled-SQL snapshot of every live query before/after each shorthand "
     "call and at the end, join counts, and the same call chain built in a pristine forked "
     "process. A history is non-trivial if it applied the shorthand at least once; "
